@@ -1,13 +1,17 @@
-(* C16 — recorded defects of the vendored gcem fall-back code (known findings): concrete
-   binary32 witnesses, evaluated by the kernel's VM.  Bit patterns: 1343554297 = 1e10f,
-   1077936128 = 3.0f, 1084227584 = 5.0f, 2139095040 = +inf, 3225419776 = -3.0f,
-   1065353216 = 1.0f, 1 = smallest subnormal. *)
+(* C16 — concrete binary32 evaluations by the kernel's VM.
+   (1) Former defects of the vendored gcem fmod (x - trunc(x/y)*y, known findings
+       KF-C16-gcem-fmod-* until the exact rewrite): the witnesses now evaluate to the C results;
+       they stay as regression examples of the fuelled model.
+   (2) gcem min/max return a NaN second operand (why etl::fmin/fmax no longer use them).
+   Bit patterns: 1343554297 = 1e10f, 1077936128 = 3.0f, 1084227584 = 5.0f, 2139095040 = +inf,
+   3225419776 = -3.0f, 1065353216 = 1.0f, 1 = smallest subnormal. *)
 From Coq Require Import ZArith Bool.
 From Flocq Require Import Core BinarySingleNaN.
 From Tetl Require Import Lib.Base C16.Model C16.Spec.
 Local Open Scope Z_scope.
 
 Notation gfmod32 := (g_fmod 24 128 p32 pe32).
+Notation grem32 := (g_remainder 24 128 p32 pe32).
 Notation sfmod32 := (spec_fmod 24 128 p32 pe32).
 Notation srem32 := (spec_remainder 24 128 p32 pe32).
 
@@ -15,47 +19,35 @@ Notation srem32 := (spec_remainder 24 128 p32 pe32).
    of validity) *)
 Definition encr (r : res b32) : Z := match r with Ok v => enc32 v | _ => -1 end.
 
-(* two roundings: fmod(1e10f, 3) is 0 instead of 1 *)
-Lemma g_fmod_inexact :
-  encr (gfmod32 (dec32 1343554297) (dec32 1077936128)) = 0
+(* fmod(1e10f, 3) = 1 (was 0: two roundings) *)
+Lemma g_fmod_ex_large :
+  encr (gfmod32 (dec32 1343554297) (dec32 1077936128)) = 1065353216
   /\ enc32 (sfmod32 (dec32 1343554297) (dec32 1077936128)) = 1065353216.
 Proof. split; vm_compute; reflexivity. Qed.
 
-Lemma g_fmod_refuted : exists x y : b32, gfmod32 x y <> Ok (sfmod32 x y).
-Proof.
-  exists (dec32 1343554297), (dec32 1077936128). intros H.
-  apply (f_equal encr) in H. vm_compute in H. discriminate.
-Qed.
-
-(* fmod(5, +inf) is NaN instead of 5 *)
-Lemma g_fmod_inf_divisor :
-  encr (gfmod32 (dec32 1084227584) (dec32 2139095040)) = 2143289344
+(* fmod(5, +inf) = 5 (was NaN) *)
+Lemma g_fmod_ex_inf_divisor :
+  encr (gfmod32 (dec32 1084227584) (dec32 2139095040)) = 1084227584
   /\ enc32 (sfmod32 (dec32 1084227584) (dec32 2139095040)) = 1084227584.
 Proof. split; vm_compute; reflexivity. Qed.
 
-(* fmod(-3, 3) is +0 instead of -0 *)
-Lemma g_fmod_zero_sign :
-  encr (gfmod32 (dec32 3225419776) (dec32 1077936128)) = 0
+(* fmod(-3, 3) = -0 (was +0) *)
+Lemma g_fmod_ex_zero_sign :
+  encr (gfmod32 (dec32 3225419776) (dec32 1077936128)) = 2147483648
   /\ enc32 (sfmod32 (dec32 3225419776) (dec32 1077936128)) = 2147483648.
 Proof. split; vm_compute; reflexivity. Qed.
 
-(* fmod(1, denorm_min) is -inf instead of +0: the quotient overflows *)
-Lemma g_fmod_overflow :
-  encr (gfmod32 (dec32 1065353216) (dec32 1)) = 4286578688
+(* fmod(1, denorm_min) = +0 (was -inf: the quotient overflowed); 127 + 22 doublings *)
+Lemma g_fmod_ex_tiny_divisor :
+  encr (gfmod32 (dec32 1065353216) (dec32 1)) = 0
   /\ enc32 (sfmod32 (dec32 1065353216) (dec32 1)) = 0.
 Proof. split; vm_compute; reflexivity. Qed.
 
-(* the constant-evaluation fall-back of remainder is gcem fmod: remainder(5, 3) is 2, not -1 *)
-Lemma g_remainder_is_fmod :
-  encr (gfmod32 (dec32 1084227584) (dec32 1077936128)) = 1073741824
+(* remainder(5, 3) = -1 (the fall-back was fmod: 2) *)
+Lemma g_remainder_ex :
+  encr (grem32 (dec32 1084227584) (dec32 1077936128)) = 3212836864
   /\ enc32 (srem32 (dec32 1084227584) (dec32 1077936128)) = 3212836864.
 Proof. split; vm_compute; reflexivity. Qed.
-
-Lemma g_remainder_refuted : exists x y : b32, gfmod32 x y <> Ok (srem32 x y).
-Proof.
-  exists (dec32 1084227584), (dec32 1077936128). intros H.
-  apply (f_equal encr) in H. vm_compute in H. discriminate.
-Qed.
 
 (* gcem min/max (used by fmin/fmax before commit 9128fcd) return a NaN second operand *)
 Lemma g_min_refuted : exists x y : b32, g_min 24 128 x y <> spec_fmin 24 128 x y.
